@@ -449,7 +449,19 @@ pub fn transition<K: Kind>(
             // connect: tree_b extends toward new_a
             let (_n2, cands_b) = expected_extension(ks, b0, &new_a.s, case.step);
             let outcome_b = next_motion_outcome(vlog, ids, pos);
-            let passed_b = outcome_b.map(|o| o.0).unwrap_or(false);
+            let Some((passed_b, _)) = outcome_b else {
+                // "... and then tries to connect the other tree to the new node": every attempt
+                // asks the checker at least about the end point of the motion
+                ctx.fail(
+                    "C16:connect:no-connect-attempt:RRTConnect",
+                    format!(
+                        "the {} tree gained node {:?} (no direct hit), but no motion of the other tree toward it was checked",
+                        if grow_start { "start" } else { "goal" },
+                        new_a.s
+                    ),
+                );
+                return;
+            };
             if !passed_b {
                 if !trees_bits_eq(b0, b1) {
                     ctx.fail("C16:connect:other-tree-changed-although-motion-invalid:RRTConnect", "");
